@@ -32,10 +32,17 @@ ShearCases ==
   {Mk(sh, <<m * 960, b, tx, d, m * 960, ty>>, o, t) :
      m \in {1, 2}, b \in {15, -15, 60}, d \in {0, 15, -15}, tx \in {0, 1920, -960}, ty \in {0, 960}, sh \in Shapes, o \in {[pad |-> <<>>, align |-> <<>>], [pad |-> <<0>>, align |-> <<>>]},
      t \in {[ttol |-> <<1, 20>>, stol |-> <<1, 1000>>], [ttol |-> <<1, 20>>, stol |-> <<1, 20>>], [ttol |-> <<1, 5>>, stol |-> <<1, 10>>]}}
+\* rasters of thousands of pixels related by a whole-pixel shift plus a rotation / shear of 2^-11 .. 2^-9 per pixel (below the default scale tolerance
+\* 1e-3 or just above it), partially overlapping: den = 2^14
+BigDen == 16384
+BigCases ==
+  {Mk(<<<<n, n>>, <<n, n>>>>, <<BigDen, b, tx * BigDen, d, BigDen, ty * BigDen>>, [pad |-> <<>>, align |-> <<>>], t) @@ [den |-> BigDen] :
+     n \in {3000}, b \in {8, -8, 32}, d \in {-8, 8, 0}, tx \in {20, -500, 1500}, ty \in {0, 700, -30},
+     t \in {[ttol |-> <<1, 20>>, stol |-> <<1, 1000>>], [ttol |-> <<1, 20>>, stol |-> <<1, 100>>]}}
 AxisCases(s) == {[ns |-> ns, nd |-> nd, s |-> s, t |-> k * 960 + r] : ns \in 1..5, nd \in 1..5, k \in -8..13, r \in Res \cup {320, -320, 640}}
 VARIABLE c
-Init == c \in {[k |-> "st", v |-> s] : s \in Scales} \cup {[k |-> "near", v |-> s] : s \in NearScales} \cup {[k |-> "rot", v |-> 0], [k |-> "shear", v |-> 0]} \cup {[k |-> "axis", v |-> s] : s \in Scales}
-Next == "k" \in DOMAIN c /\ c' \in (IF c.k = "st" THEN STCases(c.v) ELSE IF c.k = "near" THEN NearCases(c.v) ELSE IF c.k = "shear" THEN ShearCases ELSE IF c.k = "axis" THEN AxisCases(c.v) ELSE RotCases) /\ Emit(c')
+Init == c \in {[k |-> "st", v |-> s] : s \in Scales} \cup {[k |-> "near", v |-> s] : s \in NearScales} \cup {[k |-> "rot", v |-> 0], [k |-> "shear", v |-> 0], [k |-> "big", v |-> 0]} \cup {[k |-> "axis", v |-> s] : s \in Scales}
+Next == "k" \in DOMAIN c /\ c' \in (IF c.k = "st" THEN STCases(c.v) ELSE IF c.k = "near" THEN NearCases(c.v) ELSE IF c.k = "shear" THEN ShearCases ELSE IF c.k = "big" THEN BigCases ELSE IF c.k = "axis" THEN AxisCases(c.v) ELSE RotCases) /\ Emit(c')
 Spec == Init /\ [][Next]_c
 \* design level: the transcribed plan meets the contract
 ModelPlan(x) ==
@@ -44,7 +51,7 @@ ModelPlan(x) ==
   IF paste THEN PastePlan(x) @@ [paste_ok |-> TRUE, shrink |-> Shrink(x.A)]
   ELSE [roi_src |-> SampledSrcRoi(x, PadOf(x)), paste_ok |-> FALSE, shrink |-> 0]
 AxisModelOK == "ns" \in DOMAIN c => LET r == AxisOverlap(c.ns, c.nd, c.s, c.t) IN AxisOK(c, <<r.s0, r.s1, r.d0, r.d1>>) = "ok"
-ModelOK == "hs" \in DOMAIN c =>
+ModelOK == ("hs" \in DOMAIN c /\ "den" \notin DOMAIN c) =>
   LET m == ModelPlan(c) IN
   IF m.paste_ok THEN /\ \A p \in Needed(c) : InRoi(m.roi_dst, p[1], p[2]) /\ InRoi(m.roi_src, SrcPix(c, p)[1], SrcPix(c, p)[2])
                      /\ PasteSoundOK(c, [paste_ok |-> TRUE, shrink |-> m.shrink, roi_src |-> m.roi_src, roi_dst |-> m.roi_dst]) = "ok"
